@@ -34,6 +34,7 @@ type launched struct {
 	Proc    *vp.ProcRunner
 
 	mu      sync.Mutex
+	seenPid int // (no pid file) pid found by scanning /proc for this case's sandbox path
 	ctlConn net.Conn
 	ctlR    *bufio.Reader
 }
@@ -132,7 +133,13 @@ func (l *launched) pid() int {
 		if l.Proc != nil && l.Proc.Cmd != nil && l.Proc.Cmd.Process != nil {
 			return l.Proc.Cmd.Process.Pid
 		}
-		return 0
+		// a plain command launch: look for a process whose command line names this case's sandbox
+		l.mu.Lock()
+		defer l.mu.Unlock()
+		if l.seenPid == 0 && l.Dir != "" {
+			l.seenPid = findProcByArg(l.Dir + "/")
+		}
+		return l.seenPid
 	}
 	n, _ := strconv.Atoi(strings.TrimSpace(string(b)))
 	return n
@@ -170,6 +177,26 @@ func waitState(pid int, d time.Duration, want ...string) string {
 		}
 		time.Sleep(5 * time.Millisecond)
 	}
+}
+
+// findProcByArg returns the pid of a live process whose command line contains substr (0 if none).
+func findProcByArg(substr string) int {
+	ents, err := os.ReadDir("/proc")
+	if err != nil {
+		return 0
+	}
+	self := os.Getpid()
+	for _, e := range ents {
+		n, err := strconv.Atoi(e.Name())
+		if err != nil || n == self {
+			continue
+		}
+		b, err := os.ReadFile("/proc/" + e.Name() + "/cmdline")
+		if err == nil && strings.Contains(string(b), substr) {
+			return n
+		}
+	}
+	return 0
 }
 
 func terminated(st string) bool { return st == "gone" || st == "Z" || st == "X" }
